@@ -5,6 +5,8 @@ import (
 	"context"
 	"net"
 
+	"mosn.io/api"
+
 	v2 "mosn.io/mosn/pkg/config/v2"
 	"mosn.io/mosn/pkg/configmanager"
 	"mosn.io/mosn/pkg/types"
@@ -13,11 +15,18 @@ import (
 
 var zzAddrs = []string{"10.0.0.1:80", "10.0.0.2:80", "10.0.0.3:80"}
 
-func zzHostCfgs(mask int) []v2.Host {
+func zzHostCfgs(mask int) []v2.Host { return zzHostCfgsL(mask, "") }
+
+// zzHostCfgsL: hosts with the metadata label version=<label> ("" = no metadata).
+func zzHostCfgsL(mask int, label string) []v2.Host {
 	var hs []v2.Host
 	for i, a := range zzAddrs {
 		if mask&(1<<i) != 0 {
-			hs = append(hs, v2.Host{HostConfig: v2.HostConfig{Address: a, Hostname: a}})
+			h := v2.Host{HostConfig: v2.HostConfig{Address: a, Hostname: a}}
+			if label != "" {
+				h.MetaData = api.Metadata{"version": label}
+			}
+			hs = append(hs, h)
 		}
 	}
 	return hs
@@ -72,9 +81,10 @@ func VerifC12_ClusterHosts() {
 				model = append(model, h.Address)
 			}
 			exists = true
-		case 2: // EDS replace
+		case 2: // EDS replace (the same addresses may come back with another metadata label)
 			mask := verif.Choose("hosts", 4)
-			err := cm.UpdateClusterHosts("c", zzHostCfgs(mask))
+			label := []string{"v1", "v2", ""}[verif.Choose("label", verif.Param("labels", 2, 3))]
+			err := cm.UpdateClusterHosts("c", zzHostCfgsL(mask, label))
 			verif.Assert((err == nil) == exists, "host update on a missing cluster must fail, on an existing one succeed")
 			if exists {
 				model = nil
@@ -113,11 +123,13 @@ func VerifC12_ClusterHosts() {
 		}
 		// live
 		var live []string
+		var liveMeta []string
 		snap := cm.GetClusterSnapshot(context.Background(), "c")
 		verif.Assert((snap != nil) == exists, "live cluster presence differs from the operations applied")
 		if snap != nil {
 			snap.HostSet().Range(func(h types.Host) bool {
 				live = append(live, h.AddressString())
+				liveMeta = append(liveMeta, h.Metadata()["version"])
 				return true
 			})
 		}
@@ -128,9 +140,9 @@ func VerifC12_ClusterHosts() {
 			verif.Assert(snap.ClusterInfo().MaxRequestsPerConn() == maxReq, "live cluster attributes are not those of the last update")
 			same := len(rec.Hosts) == len(live)
 			for i := 0; same && i < len(live); i++ {
-				same = rec.Hosts[i].Address == live[i]
+				same = rec.Hosts[i].Address == live[i] && rec.Hosts[i].MetaData["version"] == liveMeta[i]
 			}
-			verif.Assert(same, "recorded host list differs from the hosts the live cluster serves")
+			verif.Assert(same, "recorded host list (addresses and metadata) differs from the hosts the live cluster serves")
 			okModel := len(model) == len(live)
 			for i := 0; okModel && i < len(live); i++ {
 				okModel = model[i] == live[i]
